@@ -73,6 +73,7 @@ def sbrgStep (cfg : SbrgCfg) (i0 lead : Nat) (htmp heff : Poly) (circ : Circ) : 
                       | .ok hm =>
                         match (PObj.poly diag).add hm with
                         | .ok (.poly r) => .ok r
+                        | .ok (.zero _) => .ok []
                         | .ok _ => .error .type
                         | .error e => .error e
               else .ok diag
